@@ -284,7 +284,7 @@ fn cases<B: Bk>(tier: Tier) -> Vec<Case> {
     out
 }
 
-fn fam_vec<B: Bk>(run: &mut Run)
+pub fn fam_vec<B: Bk>(run: &mut Run)
 where
     Module<B>: HalAll<B>,
 {
@@ -495,7 +495,7 @@ fn ring_cases<B: Bk>(tier: Tier) -> Vec<RingCase> {
     out
 }
 
-fn fam_ring<B: Bk>(run: &mut Run)
+pub fn fam_ring<B: Bk>(run: &mut Run)
 where
     Module<B>: HalAll<B>,
 {
@@ -897,7 +897,7 @@ fn big_cases<B: Bk>(tier: Tier) -> Vec<BigCase> {
     out
 }
 
-fn fam_big<B: Bk>(run: &mut Run)
+pub fn fam_big<B: Bk>(run: &mut Run)
 where
     Module<B>: HalAll<B>,
 {
